@@ -4,6 +4,7 @@ CONSTANTS
   MaxModel = 1
   FileMode = FALSE
   MaxOps = 4
+  Layered = FALSE
   NObj = 1
   Deviations = {"ObservedKeepsCaches"}
 INVARIANT TypeOK
